@@ -2,7 +2,6 @@
 import ScoresVerif.Driver.Proto
 import ScoresVerif.Gen.Point
 import ScoresVerif.Model.PointScores
-import ScoresVerif.Spec.PointScores
 
 namespace SV.Driver.C05
 open Lean SV SV.Proto
@@ -14,10 +13,6 @@ export SV.Gen.Point (angular_difference apply_weights mse_kernel mae_kernel addi
   qis_order_guard interval_score_guard interval_interval_width_penalty interval_overprediction_penalty
   interval_underprediction_penalty interval_total interval_lower_level interval_upper_level)
 end G
-namespace S
-export SV.Spec.PointScores (mse mae additiveBias multiplicativeBias pbias quantileScore angDiff qisWidth qisOver qisUnder
-  qisTotal intervalTotal meanList rmax meanF meanO varF varO covFO mseP biasP)
-end S
 
 def getOptFl (j : Json) : R (Option Fl) :=
   match j with
@@ -33,21 +28,6 @@ def getICase (j : Json) : R ICase := do
   let a ← getArr j
   if a.size < 4 then throw "icase needs [l,u,y,w]"
   pure { l := ← getFl a[0]!, u := ← getFl a[1]!, y := ← getFl a[2]!, w := ← getOptFl a[3]! }
-
-def getRCase (j : Json) : R (Rat × Rat × Rat) := do
-  let a ← getArr j
-  if a.size < 3 then throw "rcase needs [f,o,w]"
-  pure (← getRat a[0]!, ← getRat a[1]!, ← getRat a[2]!)
-
-def getR4 (j : Json) : R (Rat × Rat × Rat × Rat) := do
-  let a ← getArr j
-  if a.size < 4 then throw "needs [l,u,y,w]"
-  pure (← getRat a[0]!, ← getRat a[1]!, ← getRat a[2]!, ← getRat a[3]!)
-
-def getRPair (j : Json) : R (Rat × Rat) := do
-  let a ← getArr j
-  if a.size < 2 then throw "pair needs [f,o]"
-  pure (← getRat a[0]!, ← getRat a[1]!)
 
 def getPair (j : Json) : R (Fl × Fl) := do
   let a ← getArr j
@@ -118,56 +98,7 @@ def opAngular : Op := fun j => do
   let ps ← getList getPair (← field j "pairs")
   pure <| outFlList (ps.map fun p => G.angular_difference p.1 p.2)
 
-/-! ### Spec ops (the oracle): valid cases only, exact rationals -/
-
-def opSpecMean : Op := fun j => do
-  let score ← fStr j "score"
-  let cs ← getList getRCase (← field j "cases")
-  let ang := (fieldOpt j "ang").map (fun b => b == Json.bool true) |>.getD false
-  match score with
-  | "mse" => pure <| outFl (S.mse ang cs)
-  | "mae" => pure <| outFl (S.mae ang cs)
-  | "additive_bias" => pure <| outFl (S.additiveBias cs)
-  | "quantile" => do pure <| outFl (S.quantileScore (← fRat j "alpha") cs)
-  | "multiplicative_bias" => pure <| outFl (S.multiplicativeBias cs)
-  | "pbias" => pure <| outFl (S.pbias cs)
-  | s => throw s!"unknown score {s}"
-
-def opSpecInterval : Op := fun j => do
-  let kind ← fStr j "kind"
-  let component ← fStr j "component"
-  -- the VALID cases of this component: every operand the component's formula mentions is present
-  let fibres ← getList (getList getR4) (← field j "fibres")
-  let comp := fun (k : Rat → Rat → Rat → Rat) =>
-    outFlList (fibres.map fun cs => S.meanList (cs.map fun c => c.2.2.2 * k c.1 c.2.1 c.2.2.1))
-  match kind, component with
-  | "qis", "interval_width_penalty" => pure <| comp fun l u _ => S.qisWidth l u
-  | "qis", "overprediction_penalty" => do let a ← fRat j "lower_level"; pure <| comp fun l _ y => S.qisOver l y a
-  | "qis", "underprediction_penalty" => do let b ← fRat j "upper_level"; pure <| comp fun _ u y => S.qisUnder u y b
-  | "qis", "total" => do
-      let a ← fRat j "lower_level"; let b ← fRat j "upper_level"
-      pure <| comp fun l u y => S.qisTotal l u y a b
-  | "interval", "interval_width_penalty" => pure <| comp fun l u _ => S.qisWidth l u
-  | "interval", "overprediction_penalty" => do
-      let r ← fRat j "interval_range"; pure <| comp fun l _ y => 2 / (1 - r) * S.rmax 0 (l - y)
-  | "interval", "underprediction_penalty" => do
-      let r ← fRat j "interval_range"; pure <| comp fun _ u y => 2 / (1 - r) * S.rmax 0 (y - u)
-  | "interval", "total" => do let r ← fRat j "interval_range"; pure <| comp fun l u y => S.intervalTotal l u y r
-  | s, c => throw s!"unknown kind/component {s}/{c}"
-
-def opSpecMoments : Op := fun j => do
-  let ps ← getList getRPair (← field j "pairs")
-  if ps.isEmpty then pure (outObj [("n", outNat 0)]) else
-  pure <| outObj [("n", outNat ps.length), ("muF", outRat (S.meanF ps)), ("muO", outRat (S.meanO ps)),
-                  ("varF", outRat (S.varF ps)), ("varO", outRat (S.varO ps)), ("cov", outRat (S.covFO ps)),
-                  ("mse", outRat (S.mseP ps)), ("bias", outRat (S.biasP ps))]
-
-def opSpecAngular : Op := fun j => do
-  let ps ← getList getRPair (← field j "pairs")
-  pure <| Json.arr (ps.map fun p => outRat (S.angDiff p.1 p.2)).toArray
-
 def ops : OpTable := [("c05.mean", opMean), ("c05.interval", opInterval), ("c05.moments", opMoments),
-  ("c05.kge_tail", opKgeTail), ("c05.angular", opAngular), ("c05.spec.mean", opSpecMean),
-  ("c05.spec.interval", opSpecInterval), ("c05.spec.moments", opSpecMoments), ("c05.spec.angular", opSpecAngular)]
+  ("c05.kge_tail", opKgeTail), ("c05.angular", opAngular)]
 
 end SV.Driver.C05
